@@ -6,6 +6,7 @@ CONSTANTS
   ClassSel = "all"
   FirstSel = "four"
   CollectMode = "bound"
+  FbMode = "faithful"
 INIT Init
 NEXT Next
 INVARIANT Explained
